@@ -150,14 +150,17 @@ theorem search_names_wf :
     ∧ Gen.C01Ssdp.searchHeaderNames.all (fun k => isToken k && !reserved Gen.C01Ssdp.metaKeys (lower k)) = true := by
   decide
 
-/-- the cached part of the decoder never sees the port: two sources that differ only in the port
-    share it, and the results differ exactly in the per-call metadata -/
-theorem decode_port_irrelevant (data : Bytes) (loc : Option Addr) (a b : Addr) (now : Int)
-    (h : withoutPort a = withoutPort b) :
-    (decode data loc a now).map (fun r => (r.1, decodeCore data (withoutPort a)))
-      = (decode data loc b now).map (fun r => (r.1, decodeCore data (withoutPort b))) := by
-  unfold decode; rw [h]
-  cases decodeCore data (withoutPort b) <;> rfl
+/-- the decoder factors through the cached part, which sees the source WITHOUT its port: only the
+    per-call metadata (`_timestamp`, `_remote_addr`, `_port`, `_local_addr`) is added per call -/
+theorem decode_factors (data : Bytes) (loc : Option Addr) (a : Addr) (now : Int) :
+    decode data loc a now
+      = (decodeCore data (withoutPort a)).map fun r => (r.1, CIDict.combineLower r.2 (callMeta now loc a)) := by
+  unfold decode
+  cases decodeCore data (withoutPort a) <;> rfl
+
+/-- hence two sources that differ only in the port share the cached part -/
+theorem decode_port_irrelevant (data : Bytes) (a b : Addr) (h : withoutPort a = withoutPort b) :
+    decodeCore data (withoutPort a) = decodeCore data (withoutPort b) := by rw [h]
 
 /-- `get_adjusted_url` is the identity unless the source is a scoped IPv6 address -/
 theorem adjust_identity (u : Bytes) (a : Addr) (h : ¬ (a.v6 = true ∧ a.scope ≠ 0)) :
